@@ -18,7 +18,7 @@ class C13(Prop):
         return {k: v for k, v in c.items() if k != '_info'}
 
     def streams(self, rng, tier):
-        n = 150 if tier == 'quick' else scale(8000)
+        n = 300 if tier == 'quick' else scale(8000)
         valid, faulty = [], []
         for _ in range(n):
             c = G.gen_case(rng)
